@@ -91,8 +91,8 @@ fn main() {
         cases_override: cases,
         threads,
         max_seconds: max_seconds.unwrap_or(match tier {
-            Tier::Quick => 120.0,
-            Tier::Thorough => 1500.0,
+            Tier::Quick => 300.0,
+            Tier::Thorough => 3000.0,
         }),
         verif_dir,
         write_evidence,
